@@ -251,16 +251,42 @@ class ApiProp(props.BaseProp):
                 "Vec, maps an Err of all_pairs to the empty vector (C20_involving_of_error). Example "
                 "C20_negative_weights_err: on the reachable graph 1->2 (1), 1->3 (2), 3->2 (-5) single_source, multi_source "
                 "and all_pairs all return Err ContradictoryPaths and involving returns []. "
-                "The other algorithm families carry their own no-panic / fuel-suffices "
-                "theorems (C04-C06, C10-C13, C18, C19). Beyond the theorems the check sweeps EVERY public function x 8 "
+                "THE ROLL-UP (round 2, DESIGN.md 0.10.11: one row per public function of the crate, 102 of them - 64 with a "
+                "full C20 theorem, 7 partial, 28 whose model is a plain function without failure site, 3 without model): every "
+                "other modelled algorithm entry point has its own pinned C20_total_<function> for every WF graph and EVERY "
+                "argument value - outcome Ok or Err of the documented kind, no Panic site, no OutOfFuel. FULL: "
+                "connected_components, number_of_connected_components, node_connected_component, weakly_ / "
+                "strongly_connected_components (WrongMethod on the other kind, NodeNotFound on an absent name), "
+                "bfs_equal_size_partitions (k >= 1), breadth_first_search, degree_centrality, get_sparse_adjacency_matrix, "
+                "triangles, generalized_degree, transitivity, clustering and average_clustering with weighted = false "
+                "(WrongMethod on multi-edge / directed, NodeNotFound on an absent name, Ok otherwise), square_clustering on "
+                "EVERY kind of graph, is_partition, eigenvector_centrality (WrongMethod on multi-edge, else a vector or "
+                "PowerIterationFailedConvergence; any number structure), complete_graph (every i32 n), karate_club_graph, "
+                "fast_gnp_random_graph (every i32 n, every f64 p: InvalidArgument or a graph; the model's fuel is the gap "
+                "stream and gnp_slots+1 gaps suffice), read_graphml_string (a WF graph or one of four error kinds, every "
+                "event sequence), write_graphml_string; C20_modularity_outcomes (any weights: Ok / NotAPartition / one "
+                "model-domain site). PARTIAL (named _partial, the missing inputs evaluated in C20_total_*_example): "
+                "betweenness_centrality and closeness_centrality return Ok in hop-count mode and for ANY real weights, zero "
+                "and negative included (missing: weighted = true with an edge WITHOUT weight - the models have no NaN "
+                "arithmetic); clustering / average_clustering with weighted = true: the guards only (missing: the numeric "
+                "body, cube roots are modelled on perfect cubes only); modularity: full without negative weight (missing: "
+                "total weight 0 with non-zero terms, where the code computes with inf); louvain_partitions / "
+                "louvain_communities RETURN Ok - no Panic site, no fuel exhaustion with level fuel > N and sweep fuel >= N^N, "
+                "never NoPartitions (Proofs/LouvainTotal.v) - under the hypotheses no negative / missing weight when weighted, "
+                "resolution >= 0 and a well-formed shuffle oracle of the model. "
+                "Beyond the theorems the check sweeps EVERY public function x 8 "
                 "graph kinds x 14 degenerate shapes x existing/absent names in debug and release builds under a watchdog "
                 "and applies the property's rules (no panic, no hang, error channel used for unsupported kinds and absent "
                 "names).",
         "note": "What remains a hypothesis of the shortest-path totality theorems is small_adj alone (fewer than 2^31-1 "
                 "adjacency entries: beyond that the i32 fringe counter of dijkstra.rs overflows, a panic in a debug build). "
                 "Negative weights ARE generated by the sweep (fifth weight mode). "
-                "Partial: the sweep is exploration, not proof, for the functions whose models live in other packages; "
-                "'does not hang' is a 4 s watchdog. Axioms: none. Defects found by the sweep and repaired by fix: commits: "
+                "Sweep-only (exploration, not proof): read_graphml_file / write_graphml_file (file I/O), the verif hook, and "
+                "the four model-domain gaps of the _partial theorems (NaN weights in weighted betweenness / closeness / Louvain, "
+                "cube roots of weighted clustering, inf in modularity with negative weights); for everything else the sweep is "
+                "a second, independent check of what the theorems state. tools/c20_inventory.py regenerates the inventory and "
+                "fails when a pub fn of /repo/src has no row. "
+                "'does not hang' is a 4 s watchdog on the implementation; in the models it is the fuel theorems. Axioms: none. Defects found by the sweep and repaired by fix: commits: "
                 "F5/F19 (clustering subsets / absent names), F6 (transitivity underflow), F7 (multi-edge guards), F13 "
                 "(all_pairs absent target), F14 (eigenvector on multi-edge graphs), F15 (square_clustering underflow), "
                 "F18 (node_connected_component absent name), F22 (all_pairs / multi_source unwrapped the per-source "
